@@ -39,11 +39,26 @@ fn check(case: &DecCase, p: &mut Probe) -> Check {
     let sign_ok = case.h.syndrome_ok(&sign_pattern(&llrs));
     let mut any_conv = false;
     let mut any_fail = false;
+    let mut huge = false;
     for imp in factory_variants() {
         let name = imp.to_string();
         let mut dec = build_factory(&imp, hs.clone());
         let res = guarded(|| dec.decode(&llrs, case.limit)).map_err(|e| Fail::new("panic", format!("{name}: decode panicked: {e}")))?;
         check_one(&name, &res, &case.h, &llrs, case.limit)?;
+        // "every iteration limit": a frame that converges after i >= 1 iterations converges identically
+        // under any larger limit, however large (the limit only bounds the loop); tried on a quarter
+        // of the converged decodes with limits up to usize::MAX, on a fresh decoder
+        if let Ok(o) = &res {
+            if o.iterations >= 1 && (case.limit + case.llrs.len() + name.len()) % 4 == 0 {
+                let big = [usize::MAX, 1usize << 32, (1usize << 31) + 7, 65_536 + o.iterations, u32::MAX as usize, i32::MAX as usize][(case.llrs.len() + name.len()) % 6];
+                let mut d2 = build_factory(&imp, hs.clone());
+                let r2 = guarded(|| d2.decode(&llrs, big)).map_err(|e| Fail::new("panic", format!("{name}: decode with limit {big} panicked: {e}")))?;
+                check_one(&name, &r2, &case.h, &llrs, big)?;
+                ensure!(r2.as_ref().is_ok_and(|o2| o2.iterations == o.iterations && o2.codeword == o.codeword), "huge-limit", "{name}: with limit {} the frame converges after {} iterations to {:?}, with limit {big} the decoder returns {r2:?}", case.limit, o.iterations, o.codeword);
+                huge = true;
+                p.inner += 1;
+            }
+        }
         match &res {
             Ok(o) if o.iterations >= 1 => any_conv = true,
             Err(_) if case.limit >= 1 => any_fail = true,
@@ -54,6 +69,7 @@ fn check(case: &DecCase, p: &mut Probe) -> Check {
     p.class_if(any_conv, "converged-after>=1");
     p.class_if(any_fail, "failed-at-limit>=1");
     p.class_if(sign_ok, "zero-iteration");
+    p.class_if(huge, "huge-limit-retried");
     p.class_if(case.limit == 0, "limit-0");
     p.class_if(case.llrs.iter().any(|x| x.0 == 0.0), "has-exact-zero");
     p.class_if(case.llrs.iter().any(|x| x.0.abs() >= 1e29), "has-1e30");
@@ -69,7 +85,7 @@ pub fn property() -> Property {
         subs: vec![
             Box::new(Sub {
                 name: "validity",
-                rule: "all names from DecoderImplementation::value_variants() x generated (H, LLR, limit): H 1..=8 x 2..=14 (thorough sub-check 'large' up to 40x120) with every row weight >= 2 in six classes (sparse, one dense row, duplicate rows, columns shared by all rows = high degree, medium, any); LLR vectors by class (free components incl. the special catalogue: +-0, subnormal, 1e-30, 1e30, 8-bit rounding boundaries +-1ulp, 12.5, 14.5, 15.875; noisy codeword of H from an own null-space basis; exact codeword; all-special; punctured zero block; extremes); limit in {0,1,2,3,5,10,30,200}; oracle = own syndrome over the returned word + the iteration-count clauses; non-trivial = sign pattern not a codeword and limit >= 1; inner evaluations = decodes",
+                rule: "all names from DecoderImplementation::value_variants() x generated (H, LLR, limit): H 1..=8 x 2..=14 (thorough sub-check 'large' up to 40x120) with every row weight >= 2 in six classes (sparse, one dense row, duplicate rows, columns shared by all rows = high degree, medium, any); LLR vectors by class (free components incl. the special catalogue: +-0, subnormal, 1e-30, 1e30, 8-bit rounding boundaries +-1ulp, 12.5, 14.5, 15.875; noisy codeword of H from an own null-space basis; exact codeword; all-special; punctured zero block; extremes); limit in {0,1,2,3,5,10,30,200}, and for a quarter of the decodes that converge after >= 1 iterations a second, fresh decode with a limit of 65536+i, 2^31-1, 2^31+7, 2^32-1, 2^32 or usize::MAX, which must converge identically; oracle = own syndrome over the returned word + the iteration-count clauses; non-trivial = sign pattern not a codeword and limit >= 1; inner evaluations = decodes",
                 cases: |t| t.pick(100_000, 3_000_000),
                 strategy: |_| dec_case(8, 14),
                 check,
